@@ -31,6 +31,8 @@ for d in sorted(glob.glob(f"{ROOT}/seeded/*/")):
     try: ev = json.load(open(d + "eval.json"))
     except Exception: pass
     verd = "; ".join(f"{k}: {'CAUGHT' if v['exit']==1 else 'MISSED'} ({'concrete input' if 'no-failing-input-found' not in v['verdict'] else 'no-failing-input-found'})" for k, v in ev.get("checks", {}).items()) or "not evaluated"
+    if glob.glob(d + "eval_before*.json"):
+        verd += " — initially MISSED (see eval_before_*.json); check strengthened, re-evaluated"
     wb = re.sub(r"\s+", " ", meta.get("what_breaks", ""))[:260].replace("|", "/")
     nd = re.sub(r"\s+", " ", meta.get("needs_to_manifest", ""))[:200].replace("|", "/")
     print(f"| {mid} | {meta.get('property')} | {wb} — needs: {nd} | {verd} |")
